@@ -140,6 +140,9 @@ def run(ctx):
     resolution_stream(ctx, g)
     ctx.cov["in_theorem_domain"] = in_domain
     ctx.cov["traces_validated_against_impl"] = len(meta) + len(mal)
+    import codec_cases as _cc
+    for _k, _v in _cc.FORMS.items():
+        ctx.count("encode_value_form:" + _k, _v)
     ctx.cov["rule"] = ("leaf boundary catalogue + random type trees (depth<=5) with random values; non-trivial = container type or "
                        "string/float/UUID/Offset leaf; distinct = distinct (type name, canonical value); in_theorem_domain counts cases "
                        "for which the Coq predicate wt (premise of decode_encode) evaluates to true")
